@@ -48,18 +48,19 @@ func (g grant) String() string {
 }
 
 type world struct {
-	bad []string // violations noticed while the scenario runs
-	badKey string
-	st     *fakeetcd.Store
-	srvs   map[int]*srvh.Srv
-	conns  []*grpc.ClientConn
-	zones  map[int]string
-	grants []grant
-	seq    int
-	ctx    context.Context
-	cancel context.CancelFunc
-	leader int
-	allocLeader map[string]int
+	realCampaign bool
+	bad          []string // violations noticed while the scenario runs
+	badKey       string
+	st           *fakeetcd.Store
+	srvs         map[int]*srvh.Srv
+	conns        []*grpc.ClientConn
+	zones        map[int]string
+	grants       []grant
+	seq          int
+	ctx          context.Context
+	cancel       context.CancelFunc
+	leader       int
+	allocLeader  map[string]int
 }
 
 func (w *world) conn(target *srvh.Srv) *grpc.ClientConn {
@@ -212,7 +213,12 @@ func (w *world) electAllocatorUnobserved(id int, dc string) error {
 	if sched.Cur() == nil { // set-up (not a harness thread): the member's clock all the same
 		defer vclock.SetDefaultMember(vclock.SetDefaultMember(id))
 	}
-	err := w.srvs[id].GetTSOAllocatorManager().VerifBecomeAllocatorLeaderReal(w.ctx, dc)
+	var err error
+	if w.realCampaign {
+		err = w.srvs[id].GetTSOAllocatorManager().VerifBecomeAllocatorLeaderReal(w.ctx, dc)
+	} else {
+		err = w.srvs[id].GetTSOAllocatorManager().VerifBecomeAllocatorLeader(w.ctx, dc)
+	}
 	if err == nil {
 		w.allocLeader[dc] = id
 	}
@@ -386,16 +392,19 @@ func (w *world) check(r *sched.Run) (string, *explore.Violation) {
 }
 
 type scen struct {
-	retries int // maxRetryCount of the TSO code (0 = the real 10)
-	fine  bool // read-lock acquisitions are scheduling points too
-	name  string
-	zones map[int]string
-	alloc map[string]int // dc -> server that leads its allocator
-	pre   int
-	dev   int // > 0: storage writes may fail, at most dev of them
+	retries int  // maxRetryCount of the TSO code (0 = the real 10)
+	fine    bool // read-lock acquisitions are scheduling points too
+	name    string
+	zones   map[int]string
+	alloc   map[string]int // dc -> server that leads its allocator
+	pre     int
+	dev     int                   // > 0: storage writes may fail, at most dev of them
 	offsets map[int]time.Duration // clock offsets of the servers, in force from the start
-	tiers string
-	build func(w *world) ([]string, []func())
+	tiers   string
+	build   func(w *world) ([]string, []func())
+	// realCampaign: allocator elections run the steps generated from the current source of
+	// campaignAllocatorLeader (rewriter option steps=) instead of the hook that restates them
+	realCampaign bool
 }
 
 func scenario(sc scen) *explore.Scenario {
@@ -412,6 +421,7 @@ func scenario(sc scen) *explore.Scenario {
 				tso.VerifSetMaxRetryCount(10)
 			}
 			w := newWorld(sc.zones)
+			w.realCampaign = sc.realCampaign
 			for id, off := range sc.offsets {
 				vclock.SetOffset(id, off)
 			}
@@ -585,7 +595,7 @@ func main() {
 	}
 	three3 := map[int]string{1: "dc1", 2: "dc2", 3: "dc3"}
 	l = append(l, scenario(scen{name: "3dc/fourth-joins/followers-look-first", zones: three3, alloc: map[string]int{"dc1": 1, "dc2": 2, "dc3": 3}, pre: 1, tiers: "quick", build: fourth}))
-	l = append(l, scenario(scen{name: "3dc/fourth-joins/no-allocator-leaders", zones: three3, alloc: map[string]int{}, pre: 1, tiers: "quick", build: fourthAlone}))
+	l = append(l, scenario(scen{name: "3dc/fourth-joins/no-allocator-leaders", zones: three3, alloc: map[string]int{}, pre: 1, tiers: "", build: fourthAlone, realCampaign: true}))
 	l = append(l, scenario(scen{name: "3dc/fourth-joins/followers-look-first@3", zones: three3, alloc: map[string]int{"dc1": 1, "dc2": 2, "dc3": 3}, pre: 3, tiers: "thorough", build: fourth}))
 	// dc2's clock (and so its local TSO) is 5 s ahead: a global timestamp has to move the global
 	// allocator's window, and that save may fail
@@ -665,6 +675,7 @@ func main() {
 		}
 	}
 	l = append(l, scenario(scen{name: "2dc/join-later", zones: two, alloc: map[string]int{"dc1": 1}, pre: 4, tiers: "quick", build: joinLater}))
+	l = append(l, scenario(scen{name: "2dc/join-later/real-campaign", zones: two, alloc: map[string]int{"dc1": 1}, pre: 2, tiers: "", build: joinLater, realCampaign: true}))
 	// allocator leader move: dc2's allocator is reset on server 2 and server 1 campaigns for it
 	move := func(w *world) ([]string, []func()) {
 		return []string{"local2", "global", "move"}, []func(){
@@ -716,8 +727,9 @@ func main() {
 		}
 	}}))
 	explore.Main(&explore.Config{
-		Property:  "C05",
-		Scenarios: l,
+		Property:    "C05",
+		QuickBudget: 480,
+		Scenarios:   l,
 		Rule:      "all schedules within a delay bound (round-robin scheduler, k-th alternative costs k; 6 quick, 10 thorough) of local requesters per datacenter, one or two global requesters, updater rounds, a datacenter joining and an allocator leader move, on 2-3 real Servers; the per-URL RPC goroutines of SyncMaxTS are scheduled threads and the RPC handlers run in-process",
 		Assumptions: []string{
 			"PD-to-PD RPCs: real generated client stubs over an in-process ClientConn whose interceptor calls the target Server's real handler (no sockets)",
